@@ -204,6 +204,9 @@ func (c14) Plan(tier string) []fw.Unit {
 	us := planEnum("C14", tier, len(c14Queries()), 8)
 	us = append(us, fw.Unit{Check: "C14", Kind: "when-cap", Tier: tier, Spec: fw.Spec(enumSpec{})})
 	us = append(us, fw.Unit{Check: "C14", Kind: "key-pairs", Tier: tier, Spec: fw.Spec(enumSpec{})})
+	for sh := 0; sh < 4; sh++ {
+		us = append(us, fw.Unit{Check: "C14", Kind: "changed", Tier: tier, Spec: fw.Spec(enumSpec{Shard: sh, Shards: 4})})
+	}
 	for sh := 0; sh < 8; sh++ {
 		us = append(us, fw.Unit{Check: "C14", Kind: "when-gate", Tier: tier, Spec: fw.Spec(enumSpec{Shard: sh, Shards: 8})})
 	}
@@ -245,6 +248,9 @@ func (c14) Run(u fw.Unit) fw.Result {
 	}
 	if u.Kind == "key-pairs" {
 		return c14KeyPairs()
+	}
+	if u.Kind == "changed" {
+		return c14Changed(u)
 	}
 	if u.Kind == "when-cap" {
 		return c14WhenCap(u)
@@ -350,6 +356,117 @@ func (c14) Run(u fw.Unit) fw.Result {
 }
 
 func stripID(s string) string { return s }
+
+// c14Changed: changed_col(ignoreNull, v) and changed_cols(prefix, ignoreNull, v, w) per partition: a value is
+// reported at the rows where it differs from the partition's previous value (the first row counts as a change;
+// with ignoreNull a NULL neither reports nor becomes the previous value), otherwise NULL / the column is absent.
+func c14Changed(u fw.Unit) fw.Result {
+	sp := parseEnum(u)
+	a := newAcc("C14", "analytic-changed")
+	q1 := "SELECT k, changed_col(true, v) OVER (PARTITION BY k) AS cc, changed_col(false, v) OVER (PARTITION BY k) AS cf FROM stream"
+	q2 := "SELECT k, changed_cols(\"c_\", true, v, w) OVER (PARTITION BY k) FROM stream"
+	vals := []any{1.0, 2.0, nil}
+	type st struct {
+		has  bool
+		prev any
+	}
+	step := func(s *st, ignoreNull bool, v any) (out any, changed bool) {
+		if ignoreNull && v == nil {
+			return nil, false
+		}
+		if !s.has || js(s.prev) != js(v) {
+			out, changed = v, true
+		}
+		s.prev, s.has = v, true
+		return out, changed
+	}
+	idx := 0
+	maxL := 5
+	if u.Tier == "thorough" {
+		maxL = 6
+	}
+	for L := 1; L <= maxL; L++ {
+		sequences(L, 6, func(ix []int) {
+			idx++
+			if idx%sp.Shards != sp.Shard {
+				return
+			}
+			var rows []Row
+			for i, x := range ix {
+				rows = append(rows, Row{"k": []string{"a", "b"}[x/3], "v": vals[x%3], "id": i + 1})
+			}
+			res, execErr, status, _ := syncEval(q1, rows)
+			a.r.Evaluations++
+			a.r.States++
+			a.r.Transitions += int64(len(rows))
+			a.r.Nontrivial++
+			cs := map[string]any{"sql": q1, "rows": rows}
+			if execErr != "" || status != sched.StatusOK {
+				a.fail("C14|changed|exec", execErr+" "+status.String(), cs, nil, nil)
+				return
+			}
+			cc, cf := map[string]*st{}, map[string]*st{}
+			for i, row := range rows {
+				k := row["k"].(string)
+				if cc[k] == nil {
+					cc[k], cf[k] = &st{}, &st{}
+				}
+				w1, _ := step(cc[k], true, row["v"])
+				w2, _ := step(cf[k], false, row["v"])
+				g := res[i].Row
+				if g == nil || js(g["cc"]) != js(w1) || js(g["cf"]) != js(w2) {
+					a.fail("C14|changed|changed_col-wrong", fmt.Sprintf("%s: row %d gives %s, reference cc=%s cf=%s; rows %s", q1, i+1, js(g), js(w1), js(w2), js(rows)), cs, nil, g)
+					return
+				}
+			}
+			a.outcome(js(res))
+		})
+	}
+	for L := 1; L <= 4; L++ {
+		sequences(L, 12, func(ix []int) {
+			idx++
+			if idx%sp.Shards != sp.Shard {
+				return
+			}
+			var rows []Row
+			for i, x := range ix {
+				rows = append(rows, Row{"k": []string{"a", "b"}[x/6], "w": float64(1 + (x/3)%2), "v": vals[x%3], "id": i + 1})
+			}
+			res, execErr, status, _ := syncEval(q2, rows)
+			a.r.Evaluations++
+			a.r.States++
+			a.r.Transitions += int64(len(rows))
+			a.r.Nontrivial++
+			cs := map[string]any{"sql": q2, "rows": rows}
+			if execErr != "" || status != sched.StatusOK {
+				a.fail("C14|changed|exec", execErr+" "+status.String(), cs, nil, nil)
+				return
+			}
+			sv, sw := map[string]*st{}, map[string]*st{}
+			for i, row := range rows {
+				k := row["k"].(string)
+				if sv[k] == nil {
+					sv[k], sw[k] = &st{}, &st{}
+				}
+				want := Row{"k": k}
+				if o, ch := step(sv[k], true, row["v"]); ch {
+					want["c_v"] = o
+				}
+				if o, ch := step(sw[k], true, row["w"]); ch {
+					want["c_w"] = o
+				}
+				g := res[i].Row
+				if g == nil || js(g) != js(want) {
+					a.fail("C14|changed|changed_cols-wrong", fmt.Sprintf("%s: row %d gives %s, reference %s; rows %s", q2, i+1, js(g), js(want), js(rows)), cs, want, g)
+					return
+				}
+			}
+			a.outcome(js(res))
+		})
+	}
+	a.sample(map[string]any{"queries": []string{q1, q2}})
+	return a.result()
+}
 
 // c14KeyPairs: pairwise collision search over partition key tuples - two distinct tuples are two partitions
 // whatever characters or types the values have (fed as t1,t2,t1,t2; acc_count must read 1,1,2,2).
@@ -574,7 +691,7 @@ func c14WhenCap(u fw.Unit) fw.Result {
 func (c14) Describe(tier string) fw.Description {
 	return fw.Description{
 		Level: "model_checking",
-		Rule: "6 queries (lag with offsets/defaults + latest; acc_sum/count/avg and acc_max-acc_min; had_changed; v - lag(v) with a non-analytic WHERE; unpartitioned lag/acc/latest; WHERE had_changed(...) with acc_count) x all row sequences of length 1..L over 3 partition keys (strings; and float64 keys differing only beyond float32 precision) x v in {1,2,NULL,missing}, through EmitSync on the real engine against per-partition reference state machines; every 5th sequence also through Emit + sync sink (sync == async), every 3rd also with partition a alone (isolation); WHEN gating checked over all sequences of length <= 5 over 2 keys x 3 values and of length <= 4 over 2 keys x gate 0|1 x v in {1,2,NULL} with a wrapper expression (values at rows passing WHEN must not depend on rows failing it; a row failing WHEN repeats the partition's previous outputs, NULL included); pairwise collision search over typed partition key tuples (1 and 2 columns: separator-like strings, type-name-like strings, numbers beyond float32/2^53, bools, NULL); partition cap 2 over all 3-key sequences of length 5 (exact within the cap, totality above); non-trivial = the reference defines at least one output",
+		Rule: "6 queries (lag with offsets/defaults + latest; acc_sum/count/avg and acc_max-acc_min; had_changed; v - lag(v) with a non-analytic WHERE; unpartitioned lag/acc/latest; WHERE had_changed(...) with acc_count) x all row sequences of length 1..L over 3 partition keys (strings; and float64 keys differing only beyond float32 precision) x v in {1,2,NULL,missing}, through EmitSync on the real engine against per-partition reference state machines; every 5th sequence also through Emit + sync sink (sync == async), every 3rd also with partition a alone (isolation); changed_col(true|false, v) and changed_cols('c_', true, v, w) per partition over all sequences of length <= 5 / 4 over 2 keys x v in {1,2,NULL} (x w in {1,2}); WHEN gating checked over all sequences of length <= 5 over 2 keys x 3 values and of length <= 4 over 2 keys x gate 0|1 x v in {1,2,NULL} with a wrapper expression (values at rows passing WHEN must not depend on rows failing it; a row failing WHEN repeats the partition's previous outputs, NULL included); pairwise collision search over typed partition key tuples (1 and 2 columns: separator-like strings, type-name-like strings, numbers beyond float32/2^53, bools, NULL); partition cap 2 over all 3-key sequences of length 5 (exact within the cap, totality above); non-trivial = the reference defines at least one output",
 		Bounds:      map[string]any{"max_len": map[string]int{"quick": 4, "thorough": 5}, "keys": 3, "values": []string{"1", "2", "NULL", "missing"}},
 		Assumptions: []string{"definitions of lag/latest/had_changed/acc_* taken from the documentation comments of functions/functions_analytical.go and functions/analytic_acc.go (the online analytic docs are not in the repository)", "a first row with NULL under had_changed(true, v) may count as a change or not"},
 	}
